@@ -1,6 +1,8 @@
 """C19: rtllib Matrix operations vs (a) the Coq model Lib/Matrix.v (tie) and (b) plain nested-list
 integer arithmetic reduced mod 2^bits of the result (search)."""
 import itertools
+import json
+import re
 import multiprocessing
 import threading
 
@@ -679,6 +681,11 @@ def case_json(case):
     return {'op': case['op'], 'operands_rows_cols_bits_maxbits': [list(o) for o in case['ops']], 'args': g}
 
 
+def clean(msg):
+    """error text without object addresses (keeps replays byte-identical between runs)"""
+    return re.sub(r' at 0x[0-9a-f]+', '', msg)[:120]
+
+
 def build_design(batch):
     """one block holding every case of the batch; returns per-case build info"""
     pyrtl.reset_working_block()
@@ -705,9 +712,9 @@ def build_design(batch):
             out <<= wire
             info['out'] = out.name
         except pyrtl.PyrtlError as e:
-            info.update(kind='error', err='PyrtlError: ' + str(e)[:120])
+            info.update(kind='error', err='PyrtlError: ' + clean(str(e)))
         except (IndexError, ZeroDivisionError, TypeError, ValueError) as e:
-            info.update(kind='error', err='%s: %s' % (type(e).__name__, str(e)[:120]))
+            info.update(kind='error', err='%s: %s' % (type(e).__name__, clean(str(e))))
         infos.append(info)
     return infos
 
@@ -951,8 +958,35 @@ def pure_function_ties(ctx):
                 ctx.model_mismatch('list_to_int: implementation %d != model %s' % (got, model[k]), rep)
 
 
+def case_from_json(rep):
+    g = dict(rep['args'])
+
+    def unkey(k):
+        if isinstance(k, list) and k and k[0] == 'slice':
+            return slice(k[1], k[2], k[3])
+        return k
+    if 'key' in g:
+        k = g['key']
+        if isinstance(k, list) and not (k and k[0] == 'slice'):
+            g['key'] = tuple(unkey(x) for x in k)
+        else:
+            g['key'] = unkey(k)
+    return {'op': rep['op'], 'ops': [tuple(o) for o in rep['operands_rows_cols_bits_maxbits']], 'args': g,
+            'tag': 'replay', 'exhaustive': False}
+
+
 def replay(ctx, data):
-    """re-run one recorded case: data = the `replay` dict of a VIOLATION file"""
+    """re-run one recorded case: data = a VIOLATION file written by the runner"""
     rep = data.get('replay', data)
-    print(rep)
-    run(ctx)
+    case = case_from_json(rep)
+    vec = tuple(rep['wire_inputs'])
+    infos, outs = run_batch([case], [[vec]])
+    try:
+        model = ctx.coq_eval(['map (fun v : list Z => %s) [%s]' % (coq_expr(case), zl(list(vec)))], IMPORTS,
+                             tag='c19replay')[0]
+    except Exception as e:
+        model = None
+        ctx.model_mismatch('Lib/Matrix.v could not be evaluated: %s' % str(e)[-800:], {})
+    judge(ctx, 0, case, [vec], infos[0], outs[0], model)
+    print(json.dumps({'case': case_json(case), 'implementation': infos[0], 'wire_output': outs[0], 'model': model},
+                     default=str))
